@@ -347,7 +347,7 @@ def run(ctx):
         scal = {}
         for name, it, tn in simd_roots(Fs):
             scal[skey(name)] = (name, it, tn)
-        for be in [c for c in configs if c in ('sse2', 'coresimd', 'neon', 'wasm32')]:
+        for be in [c for c in ('sse2', 'fastmath', 'coresimd', 'neon', 'wasm32') if c in configs]:
             Fb, Hb = facts[be], ctx.harness(be)
             n = 0
             if be == 'wasm32':
@@ -400,7 +400,7 @@ def run(ctx):
                     same = False
                     which = (i, tm.show(cx, 0, 5)[:200], tm.show(cy, 0, 5)[:200])
                     break
-                if not same and be == 'sse2' and tn == 'Quat' and mname in ('slerp', 'rotate_towards'):
+                if not same and be in ('sse2', 'fastmath') and tn == 'Quat' and mname in ('slerp', 'rotate_towards'):
                     # the SSE2 slerp evaluates its three sines with the backend's own polynomial; with that polynomial read as sin (justified by the
                     # interval certificate |m128_sin - sin| <= 2e-6, C12 R-APPROX) the two builds must be the same real function
                     from harness import Harness
@@ -441,7 +441,7 @@ def run(ctx):
     # (e) Debug / Display effect sequences
     if 'scalar' in facts:
         Fs, Hs = facts['scalar'], ctx.harness('scalar')
-        for be in [c for c in configs if c in ('sse2', 'coresimd', 'neon', 'wasm32')]:
+        for be in [c for c in ('sse2', 'coresimd', 'neon', 'wasm32') if c in configs]:
             Fb, Hb = facts[be], ctx.harness(be)
             ne = 0
             Fs, Hs = facts['scalar'], ctx.harness('scalar')
@@ -468,7 +468,7 @@ def run(ctx):
                     for (d, descs, pc, fn) in r.effects:
                         ds = []
                         for de in descs:
-                            cells = de[2] if de[0] in ('lit', 'ref') else None
+                            cells = de[2] if de[0] in ('lit', 'ref', 'constref') else None      # constants (format templates) by content
                             hid_ = {'Vec3A': (12,), 'BVec3A': (12,), 'Mat3A': (12, 28, 44), 'Affine3A': (12, 28, 44, 60)}.get(str(de[1]).rsplit('::', 1)[-1])
                             if de[0] == 'ref' and hid_ and cells:
                                 cells = tuple(c_ for c_ in cells if c_[0] not in hid_)     # hidden lanes are not part of the value
